@@ -247,6 +247,22 @@ theorem safeShape_of_sites (tbl : List AliasRow) (op : OpK) :
     simp only [sitesOf, List.all_cons] at h
     have h' := and_true_split h
     simp only [safeShape, modeOf_copies h'.1, safeShape_of_sites tbl op s h'.2, Bool.and_self]
+  | .wrapN k p opts, h => by
+    simp only [sitesOf, List.all_cons] at h
+    have h' := and_true_split h
+    simp only [safeShape, modeOf_copies h'.1, safeOpts_of_sites tbl op k opts h'.2, Bool.and_self]
+  | .owned s, h => by
+    simp only [sitesOf] at h
+    simp only [safeShape, safeShape_of_sites tbl op s h]
+theorem safeOpts_of_sites (tbl : List AliasRow) (op : OpK) (k : Kind) :
+    (opts : List Shape) → (sitesOfOpts k opts).all (siteOk tbl op) = true → safeOpts (modeOf tbl op) k opts = true
+  | [], _ => by simp [safeOpts]
+  | s :: rest, h => by
+    simp only [sitesOfOpts, List.all_cons] at h
+    have h' := and_true_split h
+    have h'' := all_append h'.2
+    simp only [safeOpts, modeOf_copies h'.1, safeShape_of_sites tbl op s h''.1, safeOpts_of_sites tbl op k rest h''.2,
+      Bool.and_self]
 theorem safeFields_of_sites (tbl : List AliasRow) (op : OpK) :
     (fs : List (String × Shape)) → (sitesOfFields fs).all (siteOk tbl op) = true → safeFields (modeOf tbl op) fs = true
   | [], _ => by simp [safeFields]
